@@ -217,6 +217,38 @@ fn check_tree_opt(db: &LayoutDb, tree: &[(String, Node)], idx: usize, seed: u64,
 		}
 		o2 => report("metadata_write", o2.kind(), o2.detail()),
 	}
+	// the tree does not depend on how the bytes arrive or leave: read in pieces (with EINTR) from a stream that does not
+	// start at the replay, written through a sink that takes a few bytes per call, written after a write that failed
+	if !may_reject {
+		let k = 1 + (fnv(&body) % 200) as usize;
+		let mut data = vec![0x7Bu8; k];
+		data.extend_from_slice(&built.bytes);
+		data.extend_from_slice(b"U\x08metadata{}");
+		let mut r = crate::stream::FragReader::new(&data, crate::stream::Frag::RandomIntr(fnv(&body)));
+		r.set_position(k);
+		match crate::util::guard(|| peppi::io::slippi::read(&mut r, None)) {
+			Outcome::Ok(g2) => {
+				if g2.metadata != g.metadata {
+					report("metadata_tree", "mismatch", "the tree differs when the file is read in pieces from a stream offset".into());
+				}
+			}
+			o2 => report("metadata_read", o2.kind(), format!("read in pieces from a stream offset: {}", o2.detail())),
+		}
+		match real::write_slp_short(&g, 1 + body.len() % 7) {
+			Outcome::Ok(w) => {
+				if w != built.bytes {
+					report("metadata_bytes", "mismatch", format!("written through a sink that takes {} bytes per call: the file differs", 1 + body.len() % 7));
+				}
+			}
+			o2 => report("metadata_write", o2.kind(), o2.detail()),
+		}
+		real::fail_write_slp(&g, built.bytes.len() - 1 - (fnv(&body) as usize % body.len().max(1)).min(built.bytes.len() - 1));
+		if let Outcome::Ok(w) = real::write_slp(&g) {
+			if w != built.bytes {
+				report("metadata_bytes", "mismatch", "written after a write that failed inside the metadata: the file differs".into());
+			}
+		}
+	}
 	// the JSON copy inside .slpp
 	let arch = match real::write_slpp(g, Comp::None) {
 		Outcome::Ok(a) => a,
